@@ -401,7 +401,7 @@ def check_frame(I: Interp, base_heap: dict, base_alloc, mods, sf: Frame, kind: s
         return
     r = z3.Int("r!frame")
     for key, cur in list(st.heap.items()):
-        if key == "cls" or key.startswith("g:"):
+        if key == "cls" or key.startswith("g:") or key.startswith("__"):
             continue
         old = base_heap.get(key)
         if old is None:
